@@ -216,15 +216,24 @@ def run(tier):
         'float literals: conversion is CPython float(); not reasoned about symbolically',
     ]
     ch_obligations(run, HARNESS, specs(tier), cond_to=100 if tier == 'quick' else 600)
+    # the converse direction (a value placed in a tree prints to text that denotes it): the identifier lemmas are shared with C01
+    os.environ['VERIF_STRLEN'] = '4' if tier == 'quick' else '5'
+    ch_obligations(run, print_side()[0], print_side()[1], cond_to=150 if tier == 'quick' else 900)
     run.finish()
+
+
+def print_side():
+    from harness import C01
+    return C01.HARNESS, [dict(fn='ident_atom', twin='ident_atom_reach', replay=C01.r_ident, name='print-side:ident_atom'),
+                         dict(fn='path_atom', twin=None, replay=C01.r_ident, name='print-side:path_atom')]
 
 
 def replay(path):
     r = json.load(open(path))
     print(json.dumps(r, indent=1))
     h = r['replay']['harness']
-    for s in specs('quick'):
-        if s['fn'] == h:
+    for s in specs('quick') + print_side()[1]:
+        if s['fn'] == h or s.get('name') == h:
             rep, info, key, what = s['replay'](r['replay']['args'])
             print('native replay now: reproduced=%s %s' % (rep, json.dumps(info, default=repr)))
             return 1 if rep else 0
